@@ -391,7 +391,12 @@ def evaluate(ctx, batch, real_cmd, model_cmd, env, problems, reasons):
                            f"WARNING (RealNode reads NUMBER elements with ReadReal, which demands a decimal point): {r!r}")
             elif mutated and parse_r(r).get("sev") in ("NULL", "USERMSG"):
                 why = f"malformed aggregate {text!r} of {kind} read without any error: {r!r}"
-                if mutated == "stray":
+                # ReadPcd eats up to two characters behind a backslash that starts no directive: in `(\1.5,2)` the first element is
+                # read from its tail `.5` — same class; there the answer must still have the second element right
+                got = parse_r(r).get("val", "")
+                if isinstance(mutated, tuple) and mutated[0] == "stray" and (got == f"[{mutated[1]}]" or (
+                        text.startswith("(\\") and not text.startswith("(\\ ") and got.count(";") == 1
+                        and got.endswith(";" + mutated[1].split(";")[1] + "]"))):
                     vkey = AGG_STRAY_KEY
                     why = (f"aggregate {text!r} of {kind}: a `/` that starts no comment, or a `\\` that starts no print control "
                            f"directive, in front of an element is dropped by ReadTokenSeparator and nothing is reported: {r!r}")
@@ -440,6 +445,8 @@ def evaluate(ctx, batch, real_cmd, model_cmd, env, problems, reasons):
                 if v[1] == "G" and rr.get("first") == "NULL":
                     if rr.get("sev") != "NULL" or rr.get("val") != v[2]:
                         why = f"after a STRING attribute: grammar token {tok!r} of {kind} read as {rr.get('val')} ({rr.get('sev')})"
+                elif ("," in tok or ")" in tok):
+                    pass     # a delimiter inside a non-token: the token ends there (as for `rd`, token_verdict); the prefix is enumerated separately
                 elif v[1] == "X" and not stripped.startswith("$") and stripped and rr.get("sev") in ("NULL", "USERMSG"):
                     why = f"after a STRING attribute: token {tok!r} of {kind} (outside the grammar) read without error as {rr.get('val')}"
             if why:
@@ -742,8 +749,12 @@ def aggregate_batch(ctx, quick):
         # a `/` that starts no comment, or a `\` that starts no complete print control directive, in front of an element: not a
         # token separator - ReadTokenSeparator must not drop it (class AGG_STRAY_KEY when it does and the rest reads cleanly)
         for txt in [f"({t1}, / {t2}),", f"({t1},/{t2}),", f"(/ {t1},{t2}),", f"({t1},//{t2}),", f"({t1}, \\ {t2}),",
-                    f"({t1}, \\N {t2}),", f"({t1}, \\x\\ {t2}),", f"(\\{t1},{t2}),"]:
-            add(kind, txt, None, "stray")
+                    f"({t1}, \\N {t2}),", f"({t1}, \\x\\ {t2}),", f"(\\ {t1},{t2}),", f"(\\{t1},{t2}),"]:
+            # class decided from the input (a `/` not followed by `*`, a `\` not starting a complete directive, in separator
+            # position in front of an element) AND the answer (exactly the two elements' values, no error); anything else that
+            # is accepted silently keeps its own key
+            clean = ";".join(agg_expected(kind, t, v) for t, v in (pool[0], pool[-1]))
+            add(kind, txt, None, ("stray", clean))
         # an element that is not there at all
         for txt in [f"({t1},,{t2}),", f"({t1},),", f"(,{t1}),", f"(/*c*/,{t1}),", f"({t1}, /*c*/ ,{t2}),", f"({t1},{t2}, ),"]:
             add(kind, txt, None, "missing")
